@@ -179,6 +179,16 @@ func note(c Case) {
 	}
 }
 
+// longString repeats unit (or a filler when it is empty) up to one of the sizes around templ's
+// write-buffer size.
+func longString(t *rapid.T, unit string) string {
+	if unit == "" {
+		unit = rapid.SampledFrom([]string{"x", "lorem & ipsum ", "a=b (c) ", "<b>\"'"}).Draw(t, "filler")
+	}
+	size := rapid.SampledFrom([]int{4095, 4096, 4097, 5000, 8192, 8193, 20000}).Draw(t, "size")
+	return strings.Repeat(unit, size/len(unit)+1)[:size]
+}
+
 func TestPropSinks(t *testing.T) {
 	names := make([]string, 0, len(fx.Sinks))
 	for _, sk := range fx.Sinks {
@@ -186,6 +196,11 @@ func TestPropSinks(t *testing.T) {
 	}
 	rapid.Check(t, func(t *rapid.T) {
 		c := Case{Sink: rapid.SampledFrom(names).Draw(t, "sink"), S: ev.QStr(sgen.HTMLString().Draw(t, "s"))}
+		if rapid.IntRange(0, 19).Draw(t, "long") == 0 {
+			// values around and beyond the size of templ's 4 KiB write buffer: a drawn string repeated
+			c.S = ev.QStr(longString(t, string(c.S)))
+			rec.Class("value of 4095..20000 bytes")
+		}
 		note(c)
 		if err := decide(c); err != nil {
 			rec.Fail(t, c, "%v", err)
